@@ -112,6 +112,16 @@ def gen(rng, tier):
         src = _requote(rng, text)
         cases.append({"expr": text, "src": _respace(rng, src) if rng.random() < 0.7 else src,
                       "wrapper": wrapper, "frame": rng.choice(fr_cache), "kind": "random"})
+    # several calls in one formula: calls that differ anywhere (positional value, keyword value,
+    # keyword name, callee) are different terms, textual variants are one term
+    pairs = [("add3(x, c=1)", "add3(x, c=2)"), ("add3(x, 1)", "add3(x, 2)"), ("add3(x, b=1)", "add3(x, c=1)"),
+             ("pick(x, which='first')", "pick(x, which='second')"), ("pick(x, flag=True)", "pick(x, flag=False)"),
+             ("twice(x)", "twice(z)"), ("add3(x, c=z)", "add3(x, c=w)"), ("add3(x,c=1)", "add3( x , c = 1 )"),
+             ("pick(x, other=None)", "pick(x, other=z)"), ("I(x + 1)", "I(x + 2)"), ("add3(x, z, c=w)", "add3(x, z, c=x)")]
+    for a, b in pairs:
+        for joiner in (" + ", ":", " + z - "):
+            cases.append({"expr": a, "src": a, "wrapper": "%s" + joiner + b, "frame": rng.choice(fr_cache), "kind": "pair",
+                          "pair": [a, b, joiner]})
     for e in ["-x ** 2", "2 ** x ** 2", "x < z < w", "(x + z) * 2", "x + z * 2", "x - (z - w)", "x / (z * 2)", "x ** -1",
               "-(x + 1)", "add3(x, c=z)", "pick(x, which='second', other=z)", "1.5 * x", "x == z", "(x + 1) ** 2", "-x * z"]:
         cases.append({"expr": e, "src": e, "wrapper": "I(%s)", "frame": fr_cache[0], "kind": "fixed"})
@@ -194,9 +204,55 @@ def _hazard(tree):
     return None
 
 
+def _pair_oracle(c):
+    import numpy as np
+    from formulae import design_matrices
+    a, b, joiner = c["pair"]
+    df = dm.to_pandas(c["frame"])
+    ns = _extra()
+    env = {k: df[k] for k in COLS}
+    env.update(ns)
+    env["I"] = lambda v: v
+    f = _formula(c)
+    try:
+        d = design_matrices(f, df, extra_namespace=ns)
+    except Exception:
+        return None
+    va = np.asarray(eval(a, {"__builtins__": {}}, env), dtype=float)
+    vb = np.asarray(eval(b, {"__builtins__": {}}, env), dtype=float)
+    norm = lambda t: "".join(t.split())  # noqa: E731
+    same_call = norm(a) == norm(b)
+    names = list(d.common.terms)
+    X = np.asarray(d.common.design_matrix, dtype=float)
+    if joiner == " + ":
+        want = [va] if same_call else [va, vb]
+        got = [X[:, d.common.slices[n]].reshape(-1) for n in names if n != "Intercept"]
+        if len(got) != len(want):
+            return (f"{f!r}: {len(got)} call terms {names} for {len(want)} different calls "
+                    f"(different calls must be different terms, textual variants one term)")
+        for g, w in zip(got, want):
+            if not np.allclose(g, w):
+                return f"{f!r}: a call term does not evaluate like its Python text"
+    elif joiner == ":":
+        want = va if same_call else va * vb
+        got = X[:, -1]
+        if not np.allclose(got, want):
+            return f"{f!r}: the interaction column is not the product of the two calls evaluated by Python"
+    else:
+        # a + z - b : removing b must remove nothing unless b is the same call as a
+        has_a = any(np.allclose(X[:, d.common.slices[n]].reshape(-1), va) for n in names if n not in ("Intercept", "z"))
+        if same_call and has_a:
+            return f"{f!r}: subtracting a textual variant of the call did not remove it"
+        if not same_call and not has_a:
+            return f"{f!r}: subtracting a DIFFERENT call removed the call term"
+    return None
+
+
 def oracle(c):
     import numpy as np
     from formulae import design_matrices, model_description
+    if c.get("kind") == "pair":
+        return _pair_oracle(c)
     df = dm.to_pandas(c["frame"])
     ns = _extra()
     env = {k: df[k] for k in COLS}
